@@ -9,6 +9,7 @@ import (
 	"context"
 	"fmt"
 	"math"
+	"os"
 	"reflect"
 	"runtime"
 	"runtime/pprof"
@@ -19,6 +20,7 @@ import (
 	log "go.arcalot.io/log/v2"
 	"go.flow.arcalot.io/deployer"
 	deployerregistry "go.flow.arcalot.io/deployer/registry"
+	engine "go.flow.arcalot.io/engine"
 	"go.flow.arcalot.io/engine/config"
 	"go.flow.arcalot.io/engine/internal/builtinfunctions"
 	"go.flow.arcalot.io/engine/internal/step"
@@ -27,6 +29,7 @@ import (
 	stepregistry "go.flow.arcalot.io/engine/internal/step/registry"
 	"go.flow.arcalot.io/engine/internal/verif/vplug"
 	"go.flow.arcalot.io/engine/internal/verif/vsched"
+	"go.flow.arcalot.io/engine/loadfile"
 	"go.flow.arcalot.io/engine/workflow"
 )
 
@@ -254,17 +257,22 @@ func Run(req *Request) *Answer {
 		ans.DeploysProbe = w.Deploys.Load()
 		ans.ClosesProbe = w.Closes.Load()
 	}
-	w.SetPhase("run")
 	var input any = req.Input
+	var viaEngine engine.Workflow
 	if req.InputYAML != nil {
-		in, err := DecodeYAMLInput(*req.InputYAML)
+		// the input arrives as a document: it goes through the engine's own entry point
+		// (engine.New / Parse / Workflow.Run), which decodes it, not through a decoder of the harness
+		ew, err := engineWorkflowFor(env, req)
 		if err != nil {
-			ans.Returned = &Returned{Err: "input yaml: " + err.Error()}
+			ans.Returned = &Returned{Err: "harness: engine-level preparation failed: " + err.Error()}
 			return ans
 		}
-		input = in
+		viaEngine = ew
+		ans.DeploysProbe = w.Deploys.Load()
+		ans.ClosesProbe = w.Closes.Load()
 	}
-	ret, panicked, hang, blocked := execute(env, wf, input, req, ans)
+	w.SetPhase("run")
+	ret, panicked, hang, blocked := execute(env, wf, input, req, ans, viaEngine)
 	ans.TReturnUs = w.NowUs()
 	ans.DeploysRun = w.Deploys.Load() - ans.DeploysProbe
 	ans.ClosesRun = w.Closes.Load() - ans.ClosesProbe
@@ -288,7 +296,27 @@ func Run(req *Request) *Answer {
 	return ans
 }
 
-func execute(env *Env, wf workflow.ExecutableWorkflow, input any, req *Request, ans *Answer) (ret *Returned, panicked string, hang []string, blocked bool) {
+// engineWorkflowFor prepares the request's texts once more through engine.New / Parse (scripted
+// deployer of the same world) so that the run can start from the input document's bytes.
+func engineWorkflowFor(env *Env, req *Request) (engine.Workflow, error) {
+	engine.DefaultDeployerRegistry = deployerregistry.New(deployer.Any(vplug.NewFactory(env.World)))
+	cfg := &config.Config{
+		Log:                 log.Config{Level: log.LevelError, Destination: log.DestinationStdout, Stdout: discard{}},
+		LocalDeployers:      map[string]any{string(vplug.DeploymentType): map[string]any{"deployer_name": vplug.DeployerName}},
+		LoggedOutputConfigs: env.Config.LoggedOutputConfigs,
+	}
+	flow, err := engine.New(cfg)
+	if err != nil {
+		return nil, err
+	}
+	files := map[string][]byte{"workflow.yaml": []byte(req.Main)}
+	for name, text := range req.Files {
+		files[name] = []byte(text)
+	}
+	return flow.Parse(loadfile.NewFileCache(os.TempDir(), files), "workflow.yaml")
+}
+
+func execute(env *Env, wf workflow.ExecutableWorkflow, input any, req *Request, ans *Answer, viaEngine engine.Workflow) (ret *Returned, panicked string, hang []string, blocked bool) {
 	w := env.World
 	ctx, cancel := context.WithCancel(context.Background())
 	defer cancel()
@@ -355,7 +383,14 @@ func execute(env *Env, wf workflow.ExecutableWorkflow, input any, req *Request, 
 			}
 			done <- r
 		}()
-		id, data, err := wf.Execute(ctx, input)
+		var id string
+		var data any
+		var err error
+		if viaEngine != nil {
+			id, data, _, err = viaEngine.Run(ctx, []byte(*req.InputYAML))
+		} else {
+			id, data, err = wf.Execute(ctx, input)
+		}
 		r.ret = &Returned{OutputID: id}
 		if err != nil {
 			r.ret.Err = err.Error()
